@@ -13,6 +13,7 @@ import (
 	"bytes"
 	"errors"
 	"fmt"
+	"runtime"
 	"sort"
 	"sync"
 
@@ -79,6 +80,9 @@ type Store struct {
 	Trace      []Call       // filled when TraceCalls
 	TraceCalls bool
 	Counts     [nKinds]int
+
+	// LastFaultStack holds the call stack (program counters) of the most recent injected fault.
+	LastFaultStack []uintptr
 
 	// Before, if set, is called before every storage call (scheduling point).
 	Before func(kind CallKind, key []byte)
@@ -189,6 +193,10 @@ func (s *Store) call(kind CallKind, key []byte) error {
 		s.Trace = append(s.Trace, Call{kind, cp(key)})
 	}
 	fail := s.FailAt != nil && s.FailAt[idx]
+	if fail {
+		pcs := make([]uintptr, 48)
+		s.LastFaultStack = pcs[:runtime.Callers(2, pcs)]
+	}
 	s.mu.Unlock()
 	if fail {
 		return fmt.Errorf("%w (call #%d %s %x)", ErrInjected, idx, kind, key)
